@@ -229,7 +229,7 @@ def simplify(case):
 
 def signature(case, viol, prop):
     km = case['keymap']
-    kind = km['kind'] + ('' if km['kind'] != 'pickle' else ':%s' % (km['arg'] or 'repr'))
+    kind = km['kind'] + ('' if km['kind'] not in ('pickle', 'chain') else ':%s' % (km['arg'] or 'repr'))
     return '%s|%s|%s%s|%s%s' % (prop, viol['class'], kind, '' if km['flat'] else '-nonflat',
                                 viol.get('trigger', '-'), '|ignore' if case.get('ignore') else '')
 
